@@ -183,10 +183,14 @@ def optimizer_range(chk, pid):
             chk.bad(r6, site, qn, "scale has a lower bound", f"{qn}: the affine scale is floored ({floors}): a group whose range is below (2**bits - 1) x floor gets a step larger than (hi - lo)/(2**bits - 1)",
                     "half-precision weights with small-range groups (e.g. float16 weights around 1e-3 with an eps floor): errors of several half-steps")
         # scale = (rmax - rmin) / span
-        if not (isinstance(sc, ast.BinOp) and isinstance(sc.op, ast.Div) and isinstance(sc.left, ast.BinOp) and isinstance(sc.left.op, ast.Sub)):
+        if isinstance(sc, ast.BinOp) and isinstance(sc.op, ast.Sub) and all(isinstance(x, ast.BinOp) and isinstance(x.op, ast.Div) for x in (sc.left, sc.right)) and U(sc.left.right) == U(sc.right.right):
+            # rmax / span - rmin / span: the same scale, each extremum divided first (no overflow of the width)
+            rmax, rmin, span = sc.left.left, sc.right.left, sc.left.right
+        elif isinstance(sc, ast.BinOp) and isinstance(sc.op, ast.Div) and isinstance(sc.left, ast.BinOp) and isinstance(sc.left.op, ast.Sub):
+            rmax, rmin, span = sc.left.left, sc.left.right, sc.right
+        else:
             chk.unknown(r6, site, f"{qn}: scale `{U(sc)[:70]}` is not (rmax - rmin) / span")
             continue
-        rmax, rmin, span = sc.left.left, sc.left.right, sc.right
         incl = {}
         for nm, term, red, bound in (("rmin", rmin, "amin", "max"), ("rmax", rmax, "amax", "min")):
             t = term
